@@ -647,6 +647,12 @@ def topCofactorI (t : Tbl) (u : Int) (i : Int) : Except Err (Int × Int) :=
       | some _ => .ok (u, u))
   else topCofactor t u i.toNat
 
+/-- `umap.get(z, z)` for a renaming that may be `None` -/
+def mapLvl (mp : Option (List (Int × Int))) (z : Int) : Int :=
+  match mp with
+  | none => z
+  | some l => (l.lookup z).getD z
+
 def imageF (umap vmap : Option (List (Int × Int))) (qvars : List Nat) (forall_ : Bool) :
     Nat → Int → Int → HashMap (Int × Int) Int → M (Int × HashMap (Int × Int) Int)
   | 0, _, _, _ => fun m => (.error .fuel, m)
@@ -662,9 +668,7 @@ def imageF (umap vmap : Option (List (Int × Int))) (qvars : List Nat) (forall_ 
       match m.tbl.levelOf? v with
       | none => (.error .key, m)
       | some jv =>
-        let iv : Int := match vmap with
-          | none => jv
-          | some vm => (vm.lookup (jv : Int)).getD jv
+        let iv : Int := mapLvl vmap jv
         let z : Int := min (iu : Int) iv
         match topCofactorI m.tbl u z with
         | .error e => (.error e, m)
@@ -681,9 +685,7 @@ def imageF (umap vmap : Option (List (Int × Int))) (qvars : List Nat) (forall_ 
               match (if 0 ≤ z ∧ qvars.contains z.toNat = true then
                   (if forall_ then ite p q (-1) m2 else ite p 1 q m2)
                 else
-                  match findOrAdd (match umap with
-                      | none => z
-                      | some um => (um.lookup z).getD z) (-1) 1 m2 with
+                  match findOrAdd (mapLvl umap z) (-1) 1 m2 with
                   | (.error e, m3) => (.error e, m3)
                   | (.ok g, m3) => ite g q p m3) with
               | (.error e, m3) => (.error e, m3)
